@@ -2,7 +2,7 @@ SPECIFICATION MCSpec
 CONSTANTS
   Nodes = {"a"}
   Kinds = {"E"}
-  MaxOps = 3
+  MaxOps = 4
   MaxSys = 0
   MaxFail = 1
   MaxRecFail = 1
